@@ -2,6 +2,7 @@ package main
 
 import (
 	"fmt"
+	"go/constant"
 	"go/token"
 	"go/types"
 	"strings"
@@ -1009,6 +1010,9 @@ func (P *Prog) checkSanitizeAgreement(r *Result) {
 				}
 			}
 		})
+		if !(lenOK && idxOK) && appendsOnePerElement(fn, arg, "Message") {
+			lenOK, idxOK = true, true
+		}
 		if lenOK && idxOK {
 			r.ok("C10/sanitize-agreement", "SanitizeList", P.pos(fn.Pos()), "errs[i] = l[i].Message, len(errs) == len(l)")
 		} else {
@@ -1018,6 +1022,210 @@ func (P *Prog) checkSanitizeAgreement(r *Result) {
 		r.undecided("C10/sanitize-agreement", "SanitizeList", "-", "function not found")
 	}
 	r.floor("C10/sanitize-agreement", 2)
+}
+
+// appendsOnePerElement recognises the other way of writing an index-preserving
+// projection of a slice: an accumulator that starts empty and to which every
+// iteration of a full 0..len(arg)-1 index loop appends exactly arg[i].<field>,
+// the accumulator being what the function returns.
+func appendsOnePerElement(fn *ssa.Function, arg ssa.Value, field string) bool {
+	for _, l := range naturalLoops(fn) {
+		// the loop leaves only through `i < len(arg)` in its header
+		var idx ssa.Value
+		exitsOK := true
+		for b := range l.body {
+			leaves := false
+			for _, s := range b.Succs {
+				if !l.body[s] {
+					leaves = true
+				}
+			}
+			if !leaves {
+				continue
+			}
+			iff, ok := b.Instrs[len(b.Instrs)-1].(*ssa.If)
+			if !ok || b != l.header || l.body[b.Succs[1]] {
+				exitsOK = false
+				continue
+			}
+			bo, ok := iff.Cond.(*ssa.BinOp)
+			if !ok || bo.Op != token.LSS {
+				exitsOK = false
+				continue
+			}
+			if c, ok := cv(bo.Y).(*ssa.Call); !ok || callOf(c).builtin != "len" || cv(c.Call.Args[0]) != arg {
+				exitsOK = false
+				continue
+			}
+			idx = bo.X
+		}
+		if !exitsOK || idx == nil || !countsFromZero(idx, l) {
+			continue
+		}
+		for _, in := range l.header.Instrs {
+			acc, ok := in.(*ssa.Phi)
+			if !ok {
+				break
+			}
+			if _, ok := acc.Type().Underlying().(*types.Slice); !ok {
+				continue
+			}
+			good, backs := true, 0
+			for i, e := range acc.Edges {
+				if !l.body[l.header.Preds[i]] {
+					if !isEmptySlice(e) {
+						good = false
+					}
+					continue
+				}
+				backs++
+				c, ok := e.(*ssa.Call)
+				if !ok || callOf(c).builtin != "append" || c.Call.Args[0] != ssa.Value(acc) {
+					good = false
+					continue
+				}
+				el := singleVarargElem(c.Call.Args[1])
+				if el == nil {
+					good = false
+					continue
+				}
+				b, f := loadOfField(cv(el))
+				if f == nil || f.Name() != field {
+					good = false
+					continue
+				}
+				ld, ok := cv(b).(*ssa.UnOp)
+				if !ok {
+					good = false
+					continue
+				}
+				ia, ok := ld.X.(*ssa.IndexAddr)
+				if !ok || cv(ia.X) != arg || !sameValue(ia.Index, idx) {
+					good = false
+				}
+			}
+			if !good || backs == 0 {
+				continue
+			}
+			// the accumulator is what is returned
+			returned := false
+			allRet := true
+			eachInstr(fn, func(_ *ssa.BasicBlock, _ int, in ssa.Instruction) {
+				if rt, ok := in.(*ssa.Return); ok {
+					if vs, ok := retVals(rt); ok && len(vs) == 1 && cv(vs[0]) == ssa.Value(acc) {
+						returned = true
+					} else if ok {
+						allRet = false
+					}
+				}
+			})
+			if returned && allRet {
+				return true
+			}
+		}
+	}
+	return false
+}
+
+// countsFromZero: idx takes the values 0,1,2,... on successive iterations of
+// l: either a header phi {0, idx+1} or (the range form) phi{-1, idx}+1.
+func countsFromZero(idx ssa.Value, l natLoop) bool {
+	constIs := func(v ssa.Value, n int64) bool {
+		c, ok := v.(*ssa.Const)
+		if !ok || c.Value == nil {
+			return false
+		}
+		i, ok := constant.Int64Val(c.Value)
+		return ok && i == n
+	}
+	plusOne := func(v ssa.Value) (ssa.Value, bool) {
+		bo, ok := v.(*ssa.BinOp)
+		if !ok || bo.Op != token.ADD || !constIs(bo.Y, 1) {
+			return nil, false
+		}
+		return bo.X, true
+	}
+	check := func(ph *ssa.Phi, start int64, next ssa.Value) bool {
+		if ph.Block() != l.header {
+			return false
+		}
+		for i, e := range ph.Edges {
+			if l.body[l.header.Preds[i]] {
+				if e != next {
+					return false
+				}
+			} else if !constIs(e, start) {
+				return false
+			}
+		}
+		return true
+	}
+	if ph, ok := idx.(*ssa.Phi); ok {
+		// for i := 0; i < n; i++: every back edge carries idx+1
+		for i, e := range ph.Edges {
+			if l.body[l.header.Preds[i]] {
+				if x, ok := plusOne(e); !ok || x != ssa.Value(ph) {
+					return false
+				}
+			} else if !constIs(e, 0) {
+				return false
+			}
+		}
+		return ph.Block() == l.header
+	}
+	if x, ok := plusOne(idx); ok {
+		if ph, ok := x.(*ssa.Phi); ok {
+			return check(ph, -1, idx)
+		}
+	}
+	return false
+}
+
+// isEmptySlice: a nil slice constant or make([]T, 0, ...).
+func isEmptySlice(v ssa.Value) bool {
+	switch x := cv(v).(type) {
+	case *ssa.Const:
+		return x.Value == nil
+	case *ssa.MakeSlice:
+		if c, ok := x.Len.(*ssa.Const); ok && c.Value != nil {
+			i, ok := constant.Int64Val(c.Value)
+			return ok && i == 0
+		}
+	}
+	return false
+}
+
+// singleVarargElem: for append(acc, x) the value x (the only element stored
+// into the one-element varargs array), else nil.
+func singleVarargElem(v ssa.Value) ssa.Value {
+	sl, ok := v.(*ssa.Slice)
+	if !ok {
+		return nil
+	}
+	al, ok := sl.X.(*ssa.Alloc)
+	if !ok {
+		return nil
+	}
+	arr, ok := al.Type().Underlying().(*types.Pointer).Elem().Underlying().(*types.Array)
+	if !ok || arr.Len() != 1 {
+		return nil
+	}
+	var el ssa.Value
+	n := 0
+	for _, ref := range *al.Referrers() {
+		if ia, ok := ref.(*ssa.IndexAddr); ok {
+			for _, r2 := range *ia.Referrers() {
+				if st, ok := r2.(*ssa.Store); ok && st.Addr == ssa.Value(ia) {
+					el = st.Val
+					n++
+				}
+			}
+		}
+	}
+	if n != 1 {
+		return nil
+	}
+	return el
 }
 
 // checkTagReachesNested (shared by C10 and C14): nested struct values must be
